@@ -37,6 +37,9 @@ type DialScenario struct {
 	Debug     bool              `json:"debug,omitempty"`
 	LogAuth   bool              `json:"log_auth,omitempty"`
 	BadCert   string            `json:"bad_cert,omitempty"` // wrongname | untrusted: what a "tlsbad" handshake presents
+	ThenReset bool              `json:"then_reset,omitempty"` // Client.Reset() after a successful dial
+	TLS12     bool              `json:"tls12,omitempty"`      // the server only speaks TLS 1.2
+	sasl      *saslServer
 	Timeout   time.Duration     `json:"-"`
 	dynamic   func(pos int, verb, line string) (SrvAction, bool)
 }
@@ -52,6 +55,10 @@ type DialRun struct {
 	Panic   interface{}
 	Client  *mail.Client
 	ScramNonce string
+	ScramNonces []string
+	ResetErr error
+	StockText, StockJSON string
+	TLSState *tls.ConnectionState
 }
 
 // certificates for the scripted server
@@ -111,6 +118,17 @@ func RunDial(sc *DialScenario) *DialRun {
 	default:
 		srv.TLSBad = tlsWrongName[sc.Host]
 	}
+	if sc.TLS12 && srv.TLSGood != nil {
+		cfg := srv.TLSGood.Clone()
+		cfg.MaxVersion = tls.VersionTLS12
+		srv.TLSGood = cfg
+	}
+	if sc.sasl != nil {
+		sc.sasl.tlsState = func() *tls.ConnectionState {
+			// called from feed(), which already holds the server lock
+			return srv.TLSState
+		}
+	}
 	srv.tlsDone = make(chan struct{})
 	var conn *ScriptConn
 	dial := func(ctx context.Context, network, address string) (net.Conn, error) {
@@ -147,6 +165,9 @@ func RunDial(sc *DialScenario) *DialRun {
 			}
 		}()
 		run.Err = client.DialWithContext(context.Background())
+		if run.Err == nil && sc.ThenReset {
+			run.ResetErr = client.Reset()
+		}
 	}()
 	// let the TLS goroutine finish recording when the client closed the connection
 	if conn != nil && conn.IsClosed() && srv.tlsStarted {
@@ -159,6 +180,7 @@ func RunDial(sc *DialScenario) *DialRun {
 	run.Events = append([]Event(nil), srv.Events...)
 	run.Applied = append([]SrvAction(nil), srv.Applied...)
 	run.Verbs = append([]string(nil), srv.Verbs...)
+	run.TLSState = srv.TLSState
 	srv.mu.Unlock()
 	if conn != nil {
 		run.Open = !conn.IsClosed()
@@ -244,13 +266,17 @@ func (sc *DialScenario) modelLine(run *DialRun) string {
 	}
 	toks := []string{"smtp", "dial", encLS(sc.Caps), encLS(acts), encS(helo), encS(sc.Host), encN(sc.Policy), "#0", "#0",
 		encS(sc.AuthType), encS(sc.User), encS(sc.Pass), encBool(sc.Debug), encBool(sc.LogAuth),
-		su, sp, encS(run.ScramNonce), ".", "-", encLS(crypto), encLS(hm)}
+		su, sp, encLS(run.ScramNonces), encBool(run.TLSState != nil && run.TLSState.Version >= tls.VersionTLS13), cbTokens(run), encLS(crypto), encLS(hm), encBool(sc.ThenReset)}
 	return strings.Join(toks, " ")
 }
 
 func (run *DialRun) wantLine() string {
 	tr := traceStrings(run.Events)
-	return fmt.Sprintf("%s dial=%s open=%s logs=%s", encLS(tr), dialErrTag(run.Err), encBool(run.Open), encLS(run.Logs))
+	reset := "-"
+	if run.ResetErr != nil {
+		reset = errTag(unwrapAll(run.ResetErr))
+	}
+	return fmt.Sprintf("%s dial=%s open=%s logs=%s reset=%s", encLS(tr), dialErrTag(run.Err), encBool(run.Open), encLS(run.Logs), reset)
 }
 
 // secretForms: every encoding of the password a leak could take
@@ -282,4 +308,27 @@ func containsSecret(hay []byte, user, pass string) string {
 		}
 	}
 	return ""
+}
+
+func unwrapAll(err error) error {
+	for {
+		u := errors.Unwrap(err)
+		if u == nil {
+			return err
+		}
+		err = u
+	}
+}
+
+// cbTokens: [tls-unique, exporter] of the established TLS connection as the model's channel binding inputs
+func cbTokens(run *DialRun) string {
+	if run.TLSState == nil {
+		return "-"
+	}
+	uniq := run.TLSState.TLSUnique
+	ekm, err := run.TLSState.ExportKeyingMaterial("EXPORTER-Channel-Binding", nil, 32)
+	if err != nil {
+		return encL([][]byte{uniq})
+	}
+	return encL([][]byte{uniq, ekm})
 }
